@@ -81,7 +81,7 @@ static void vm_alloc_install(void) {
 #define UDATA2 ((ppointer) (size_t) 0x7002)
 
 /* ---- comparator: total order on ranks, arbitrary magnitude, counts calls ---------------------- */
-static int cmp_calls, cmp_mag = 1;
+static int cmp_calls, cmp_mag = 1, cmp_neg = 1;   /* comparator returns -cmp_neg / 0 / +cmp_mag: only the sign may matter */
 static int phase;                          /* which API call of the harness is running (index into kd/vd) */
 static unsigned char kd[NPHASE][NK + 1][IDMAX + 2], vd[NPHASE][NK + 1][IDMAX + 2];   /* destroy-notifier call counts [phase][rank][id] */
 static int nd_calls;
@@ -100,7 +100,7 @@ static pint cmp3(pconstpointer a, pconstpointer b, ppointer data) {
   VASSERT(ra >= 1 && ra <= NK && rb >= 1 && rb <= NK && ID(a) >= 1 && ID(a) <= ID_PROBE && ID(b) >= 1 && ID(b) <= ID_PROBE, "comparator only sees keys given by the user");
   { int ph_; for (ph_ = 0; ph_ < NPHASE; ph_++) VASSERT(kd[ph_][ra][ID(a)] == 0 && kd[ph_][rb][ID(b)] == 0, "no key is compared after its destroy notifier ran"); }
 #endif
-  return ra < rb ? -cmp_mag : (ra > rb ? cmp_mag : 0);
+  return ra < rb ? -cmp_neg : (ra > rb ? cmp_mag : 0);
 }
 
 /* ---- destroy notifiers -------------------------------------------------------------------------- */
@@ -241,12 +241,13 @@ static void make_tree(void) {
   VASSERT(tree != NULL, "tree created");
   VASSERT(p_tree_get_type(tree) == TREETYPE && p_tree_get_nnodes(tree) == 0, "new tree: type as requested, empty");
 #ifdef SYM_MAG
-  /* any total-order comparator: the magnitude of the result is arbitrary (only where affordable:
-   * a symbolic magnitude makes every comparison a symbolic branch for the symbolic executor) */
-  cmp_mag = ND_INT();
-  VASSUME(cmp_mag >= 1);
+  /* any total-order comparator: the magnitudes of the negative and of the positive result are arbitrary and independent
+   * (only where affordable: a symbolic magnitude makes every comparison a symbolic branch for the symbolic executor) */
+  cmp_mag = ND_INT(); cmp_neg = ND_INT();
+  VASSUME(cmp_mag >= 1 && cmp_neg >= 1);
 #elif defined(CMP_MAG)
-  cmp_mag = CMP_MAG;
+  /* concrete, asymmetric: one side has magnitude 1, the other 1000 (which one alternates with the position parity) */
+  cmp_mag = CMP_MAG; cmp_neg = (CMP_MAG == 1) ? 1000 : 1;
 #endif
 }
 
